@@ -1,5 +1,6 @@
 import AllfedModel.Model.PhysSpec
 import AllfedModel.Model.Report
+import AllfedModel.Model.Handoff
 /-
 Property C02, completeness: what a *physically feasible allocation* is, written from the supplies
 (stocks, monthly production, slaughter, growth, charge, intake limits) and the decision quantities
@@ -237,6 +238,36 @@ structure PinsWithin (i : Inp α) (x : Var → α) : Prop where
     0 ≤ at' i.minScp m ∧ at' i.minScp m ≤ x (.mv .scpHumans m)
   cs : i.addCs = true → ∀ m, m < i.nmonths →
     0 ≤ at' i.minCs m ∧ at' i.minCs m ≤ x (.mv .csHumans m)
+
+/-! ### the hand-off from the human-maximising to the feed-maximising round -/
+
+/-- what people are given in month `m` at the point `x`, food by food in the priority order of
+    `calculate_human_consumption_for_min_needs` (fish, meat, dairy, greenhouse, outdoor crops, stored
+    food, SCP, cellulosic sugar, seaweed), in the unit of the hand-off: `u` units per billion kcals
+    (the code works in kcals per person per day; `u` is its conversion factor) -/
+def humanRow (i : Inp α) (x : Var → α) (u : α) (m : Nat) : List α :=
+  [ u * at' i.fish m, u * X x i.addMeat .meatEaten m, u * at' i.milk m, u * at' i.greenhouse m,
+    u * X x i.addOutdoor .cropHumans m, u * X x i.addStored .sfHumans m, u * X x i.addScp .scpHumans m,
+    u * X x i.addCs .csHumans m, u * (X x i.addSeaweed .swHumans m * i.seaweedKcals) ]
+
+/-- the table handed to `Handoff.minNeeds`: one row per month of the horizon -/
+def round1Rows (i : Inp α) (x : Var → α) (u : α) : List (List α) :=
+  (List.range i.nmonths).map (humanRow i x u)
+
+/-- entry `k` of month `m` of the hand-off's result for the ceiling `cap` -/
+def handoffEntry (i : Inp α) (x : Var → α) (u cap : α) (m k : Nat) : α :=
+  ((Handoff.minNeeds cap (round1Rows i x u)).getD m []).getD k 0
+
+/-- the six minimum-consumption series of `i` are (in the hand-off's unit) the components of what
+    `Handoff.minNeeds` returns for the consumption of `x`; months of the horizon, resources that
+    are switched on.  Checked per instance by the harness (it is how the pipeline builds round 2). -/
+structure MinsFromHandoff (i : Inp α) (x : Var → α) (u cap : α) : Prop where
+  meat : i.addMeat = true → ∀ m, m < i.nmonths → u * at' i.minMeat m = handoffEntry i x u cap m 1
+  crops : i.addOutdoor = true → ∀ m, m < i.nmonths → u * at' i.minCrops m = handoffEntry i x u cap m 4
+  stored : i.addStored = true → ∀ m, m < i.nmonths → u * at' i.minStored m = handoffEntry i x u cap m 5
+  scp : i.addScp = true → ∀ m, m < i.nmonths → u * at' i.minScp m = handoffEntry i x u cap m 6
+  cs : i.addCs = true → ∀ m, m < i.nmonths → u * at' i.minCs m = handoffEntry i x u cap m 7
+  seaweed : i.addSeaweed = true → ∀ m, m < i.nmonths → u * at' i.minSeaweed m = handoffEntry i x u cap m 8
 
 end
 end Allfed.AllocSpec
